@@ -181,7 +181,10 @@ Count(a, k) == Cardinality({ j \in 1 .. Len(a) : a[j].k = k })
 PipeOrderVerdict(b, a, menv, isMain) ==
   LET m == MeanPipe(b, menv)
       eff == CanonKeys(EffSort(a), menv.R, menv.A)
+      selOf(p) == IF FirstSelect(p) = 0 THEN <<>> ELSE p[FirstSelect(p)].cols
   IN IF Count(a, "Take") # Len(m.takes) \/ Count(a, "DistinctOn") # Len(m.dons) THEN "transform-lost"
+     \* SELECT DISTINCT de-duplicates its select list: a column added to carry a sort would split the groups
+     ELSE IF Count(a, "Distinct") > 0 /\ selOf(a) # selOf(b) THEN "distinct-select-extended"
      ELSE IF \E n \in 1 .. Len(m.takes) : ~IsPrefixOf(m.takes[n], eff) THEN "take-order"
      ELSE IF \E n \in 1 .. Len(m.dons) : ~IsPrefixOf(m.dons[n], eff) THEN "distinct-on-order"
      ELSE IF isMain /\ ~IsPrefixOf(m.ord, eff) THEN "final-order"
@@ -228,7 +231,7 @@ PipeAt(q, p) == IF p[1] = Len(q.ctes) + 1 THEN q.main ELSE q.ctes[p[1]].pipes[p[
 \* before / after: the query before and after the pass
 QueryVerdicts(before, after, R, A, D) ==
   LET sel == SelOf(after.ctes) selB == SelOf(before.ctes) IN
-  { <<p, v>> \in PipesOf(before) \X {"transform-lost", "take-order", "distinct-on-order", "final-order", "sort-out-of-scope", "sort-not-carried", "sort-not-redirected", "shape"} :
+  { <<p, v>> \in PipesOf(before) \X {"transform-lost", "distinct-select-extended", "take-order", "distinct-on-order", "final-order", "sort-out-of-scope", "sort-not-carried", "sort-not-redirected", "shape"} :
       IF Len(after.ctes) # Len(before.ctes) \/ p \notin PipesOf(after) THEN v = "shape"
       ELSE LET isMain == p[1] = Len(before.ctes) + 1
                o == PipeOrderVerdict(PipeAt(before, p), PipeAt(after, p), MeanEnv(before, R, A, p[1]), isMain)
